@@ -198,7 +198,9 @@ def check(res, drv_resp, cert_resp, case, rg, calls, used, size, fpots, pots, r_
     ok = True
     bad = rggen.validity(tab, total, 1e-9)
     if bad:
-        res.violation('failing-input', f'hazan_peng_shashua: {bad}', rp, key='hps:not-normalised')
+        mm0 = rggen.max_abs_message(rg)
+        res.violation('failing-input', f'hazan_peng_shashua: {bad}; largest |message| {mm0:.3e}', rp,
+                      key='hps:not-normalised' + (':diverged-messages' if not (mm0 < rggen.DIVERGED) else ''))
         ok = False
     # the implementation's own feasibility figure (it compares flat vectors without aligning attribute orders)
     if not close(last['pf_impl'], last['pf'], 1e-6, 1e-9 * total):
@@ -213,7 +215,8 @@ def check(res, drv_resp, cert_resp, case, rg, calls, used, size, fpots, pots, r_
     if not converged:
         res.violation('failing-input',
                       f'convergence test: hazan_peng_shashua with damping {damping} did not reach feasibility 1e-6*total within {used} sweeps (cap {cap}): '
-                      f'mean edge disagreement {last["pf"]!r}, total {total}, largest |message| {maxmsg:.3e}, cliques {cl}', rp, key='hps:no-convergence')
+                      f'mean edge disagreement {last["pf"]!r}, total {total}, largest |message| {maxmsg:.3e}, cliques {cl}', rp,
+                      key='hps:no-convergence' + (':diverged-messages' if not (maxmsg < rggen.DIVERGED) else ''))
     if ok and lag > 1e-9 * total and maxmsg < 1e12:
         res.violation('correspondence', f'hazan_peng_shashua: returned tables differ from total*softmax(pot + sum child messages - sum parent messages) '
                       f'by {lag!r} (total {total})', dict(rp, stream='C17.lagrangian'), key='hps:lagrangian-form')
@@ -256,6 +259,17 @@ def check(res, drv_resp, cert_resp, case, rg, calls, used, size, fpots, pots, r_
             c = cert_resp['out']
             LD, LF, Llag = dec_f(c['dual']), dec_f(c['primal']), dec_f(c['lagr_err'])
             res.count('certificate evaluated in Lean')
+            if not c.get('graph_check', False):
+                # the hypotheses of Convex.hps_certificate_checked are not met by the implementation's graph: weak duality is not known for it
+                res.violation('correspondence', 'the region graph exported from the implementation fails the verified checker of the certificate\'s hypotheses '
+                              '(RG.graphCheck: children inside parents, parents dual to children, no duplicates, message order = edge list, no 2-cycles)',
+                              dict(rp, stream='C17.graph_check'), key='hps:graph-check')
+            elif not c.get('layout_check', False):
+                # potentials supplied in a permuted attribute order (a legitimate input) put tables and messages on permuted domains; the certificate
+                # theorem is stated for the canonical layout only, so on these inputs the weak-duality bound is a tested quantity, not a proved one
+                res.count('certificate hypotheses NOT met: a potential / message is laid out in another attribute order (bound tested, not proved, on this input)')
+            else:
+                res.count('certificate hypotheses verified on the implementation\'s graph and messages (graphCheck, layout)')
             if Llag > 1e-9 * total:
                 res.violation('correspondence', f'hazan_peng_shashua: Lean evaluation: returned tables differ from the Lagrangian form by {Llag!r} (total {total})',
                               dict(rp, stream='C17.hps_cert'), key='hps:lagrangian-form')
